@@ -107,3 +107,15 @@ Proof.
     destruct x as [|p]; [reflexivity|]. do 4 (destruct p; try reflexivity). congruence.
   - destruct x as [|p]; [reflexivity|]. do 4 (destruct p; try reflexivity).
 Qed.
+
+Require Import PX.Model.Warnings PX.Gen.Defaults PX.Model.Defaults.
+(* a default that is a reference — to the live form or to the last saved one — is dynamic for EVERY question type *)
+Theorem reference_default_is_dynamic name ty : ncname_plain name ->
+  default_is_dynamic tokens ([36;123] ++ name ++ [125]) ty = true /\
+  default_is_dynamic tokens ([36;123] ++ LAST_SAVED ++ name ++ [125]) ty = true.
+Proof.
+  intro H. unfold default_is_dynamic, tokens.
+  rewrite (reference_is_one_token name H), (last_saved_reference_is_one_token name H). cbn [fst dyn_tokens].
+  assert (E : seqb n_ref PX.Model.Defaults.s_ops_math = false) by reflexivity. rewrite E, !andb_false_r.
+  assert (M : mem n_ref DYNAMIC_TOKEN_NAMES = true) by reflexivity. rewrite M. split; reflexivity.
+Qed.
